@@ -94,7 +94,7 @@ unchecked_new!(unchecked_new_l4, 4, 7);
 //@ harness: unchecked_new_l5 class=F tier=quick props=C10,C17,C06
 //@ clause: same, every 5-char ASCII string
 unchecked_new!(unchecked_new_l5, 5, 8);
-//@ harness: unchecked_new_l6 class=F tier=quick props=C10,C17,C06
+//@ harness: unchecked_new_l6 class=F tier=thorough props=C10,C17,C06
 //@ clause: same, every 6-char ASCII string
 unchecked_new!(unchecked_new_l6, 6, 9);
 //@ harness: unchecked_new_l9 class=F tier=thorough props=C10,C17,C06
@@ -133,7 +133,7 @@ checked_new!(checked_new_l4, Blech32, 4, 7);
 //@ harness: checked_new_l5 class=F tier=quick props=C10
 //@ clause: same, 5 chars
 checked_new!(checked_new_l5, Blech32m, 5, 8);
-//@ harness: checked_new_l6 class=F tier=quick props=C10
+//@ harness: checked_new_l6 class=F tier=thorough props=C10
 //@ clause: same, 6 chars
 checked_new!(checked_new_l6, Blech32, 6, 9);
 
@@ -167,7 +167,7 @@ segwit_new!(segwit_new_l4, 4, 7);
 //@ harness: segwit_new_l5 class=F tier=quick props=C10
 //@ clause: same, 5 chars
 segwit_new!(segwit_new_l5, 5, 8);
-//@ harness: segwit_new_l6 class=F tier=quick props=C10
+//@ harness: segwit_new_l6 class=F tier=thorough props=C10
 //@ clause: same, 6 chars
 segwit_new!(segwit_new_l6, 6, 9);
 
@@ -200,7 +200,7 @@ segwit_new_bech32_nonempty!(segwit_new_bech32_nonempty_l3, 3, 6);
 //@ harness: segwit_new_bech32_nonempty_l5 class=F tier=quick props=C10
 //@ clause: same, 5 chars
 segwit_new_bech32_nonempty!(segwit_new_bech32_nonempty_l5, 5, 8);
-//@ harness: segwit_new_bech32_nonempty_l6 class=F tier=quick props=C10
+//@ harness: segwit_new_bech32_nonempty_l6 class=F tier=thorough props=C10
 //@ clause: same, 6 chars
 segwit_new_bech32_nonempty!(segwit_new_bech32_nonempty_l6, 6, 9);
 
@@ -221,6 +221,6 @@ segwit_new_bech32!(segwit_new_bech32_l2, 2, 5);
 //@ harness: segwit_new_bech32_l3 class=F tier=quick props=C10
 //@ clause: (D5, expected to FAIL on the pinned tree) same, 3 chars ("el1")
 segwit_new_bech32!(segwit_new_bech32_l3, 3, 6);
-//@ harness: segwit_new_bech32_l6 class=F tier=quick props=C10
+//@ harness: segwit_new_bech32_l6 class=F tier=thorough props=C10
 //@ clause: (D5, expected to FAIL on the pinned tree) same, 6 chars
 segwit_new_bech32!(segwit_new_bech32_l6, 6, 9);
